@@ -9,6 +9,7 @@ from __future__ import annotations
 
 import dataclasses
 import random
+import re
 from dataclasses import dataclass, field
 from fractions import Fraction
 
@@ -91,6 +92,7 @@ class Profile:
     phrases: float = 0.6
     flags: float = 0.25
     c08_past: bool = True
+    dup_fields: float = 0.0  # chance per [Song] field of a second, later line for the same field (the first one counts)
 
 
 # ------------------------------------------------------------------------------------------ random structures
@@ -307,6 +309,8 @@ def body_lines_track(rng, prof, tr: TrackSrc):
             flags.append((g.tick, 5, rng.choice([0, 0, rng.randint(1, 2000)])))
         if g.tap:
             flags.append((g.tick, 6, rng.choice([0, 0, rng.randint(1, 2000)])))
+        # a flag written twice (or three times) is still one flag
+        flags = [f for f in flags for _ in range(rng.choice([1, 1, 1, 1, 2, 3]))]
         if g.open_len is None:
             # flags may sit anywhere among lane lines
             for f in flags:
@@ -366,6 +370,16 @@ def render(src: ChartSrc, rng: random.Random, prof: Profile | None = None, *, or
                 val = quote(v)
             song.append(f"{pad(rng, prof)}{pascal} = {val}{pad(rng, prof, '')}")
     rng.shuffle(song)
+    if prof.dup_fields:
+        # a stale second line for a field, further down: the first matching line is the field's line
+        k = 0
+        while k < len(song):
+            m_ = re.match(r"\s*(\w+) = ", song[k])
+            if m_ and rng.random() < prof.dup_fields:
+                kind = next((kd for _, pc, kd in FIELDS if pc == m_.group(1)), None)
+                other = "7" if kind == "int" else ("rhythm" if kind == "p2" else quote("stale " + m_.group(1)))
+                song.insert(rng.randint(k + 1, len(song)), f"  {m_.group(1)} = {other}")
+            k += 1
     secs.append(("Song", song))
     # [SyncTrack]
     sync = []
